@@ -19,7 +19,7 @@
 //! `c12 replay <json>` re-runs one case (`{"kind":"stress","seed":..,"index":..,"tier":..}`
 //!   or `{"kind":"probe"}`); `c12 dump <source>` prints the LIR dump.
 
-use roto::{FileTree, NoCtx, RotoString, Runtime, TypedFunc, Val, library};
+use roto::{Context, FileTree, NoCtx, RotoString, Runtime, TypedFunc, Val, library};
 use rotov_harness::driver::{Driver, hex};
 use rotov_harness::worker::{self, Ended};
 use rotov_harness::{Prng, Report};
@@ -368,11 +368,23 @@ fn tier(name: &str) -> Tier {
 
 // ------------------------------------------------------------ one stress case
 
-fn check_lir(drv: &mut Driver, rep: &mut Report, src: &str, rt: &Runtime<NoCtx>, input: &Value) -> bool {
-    let dump = match roto::verif_hooks::c12::lir_dump(FileTree::test_file("c12.roto", src, 0), rt) {
+/// `check_lir!(drv, rep, src, rt, input)`: the runtime's context type cannot
+/// be named outside the crate, hence a macro around `check_dump`.
+macro_rules! check_lir {
+    ($drv:expr, $rep:expr, $src:expr, $rt:expr, $input:expr) => {{
+        let dump = roto::verif_hooks::c12::lir_dump(FileTree::test_file("c12.roto", $src, 0), $rt)
+            .map_err(|e| format!("{e}"));
+        check_dump($drv, $rep, $src, dump, $input, || {
+            roto::verif_hooks::c12::lir_text(FileTree::test_file("c12.roto", $src, 0), $rt).unwrap_or_default()
+        })
+    }};
+}
+
+fn check_dump(drv: &mut Driver, rep: &mut Report, src: &str, dump: Result<String, String>, input: &Value, text: impl FnOnce() -> String) -> bool {
+    let dump = match dump {
         Ok(d) => d,
         Err(e) => {
-            rep.mismatch("generator produced a script that does not lower", json!({"case": input, "error": format!("{e}")}));
+            rep.mismatch("generator produced a script that does not lower", json!({"case": input, "error": e}));
             return false;
         }
     };
@@ -393,7 +405,7 @@ fn check_lir(drv: &mut Driver, rep: &mut Report, src: &str, rt: &Runtime<NoCtx>,
                 .map(|b| b as char)
                 .collect()
         };
-        let text = roto::verif_hooks::c12::lir_text(FileTree::test_file("c12.roto", src, 0), rt).unwrap_or_default();
+        let text = text();
         rep.violation(
             "generated code writes through an address that is not derived from a stack slot, the return pointer or a parameter (verified LIR checker rejects the item)",
             "lir-nonlocal-write",
@@ -406,7 +418,108 @@ fn check_lir(drv: &mut Driver, rep: &mut Report, src: &str, rt: &Runtime<NoCtx>,
     }
 }
 
+/// Scripts that read a context: every calling thread owns its context (it is
+/// passed as `&mut`), the handle is shared. Exercises the `$context` paths of
+/// the LIR checker on real dumps.
+#[derive(Clone, Context)]
+struct Cx {
+    pub name: RotoString,
+    pub n: u32,
+}
+
+fn ctx_case(seed: u64, index: u64, tiername: &str, drv: &mut Driver, rep: &mut Report) {
+    let t = tier(tiername);
+    let mut p = Prng::for_case(seed, index);
+    let input = json!({"kind": "stress", "seed": seed, "index": index, "tier": tiername});
+    rep.hist("family", "context");
+    let rt = make_runtime(Arc::new(AtomicU64::new(0)))
+        .with_context_type::<Cx>()
+        .expect("context type");
+    let with_helper = p.chance(1, 2);
+    let mut src = String::new();
+    if with_helper {
+        src += "fn tag(k: u32) -> String { name + f\"#{k + n}\" }\n";
+    }
+    src += &format!(
+        "fn main(x: u32) -> String {{\n  let s = name + \"{}\";\n  let i = 0;\n  while i < {} {{ s = s + f\"{{n + i}}\"; i = i + 1; }}\n  {}\n}}\n",
+        word(&mut p),
+        1 + p.below(5),
+        if with_helper { "if x < 20 { s + tag(x) } else { tag(x + BASE) }" } else { "s + f\"{x * n}\" + GREETING" }
+    );
+    if !check_lir!(drv, rep, &src, &rt, &input) {
+        return;
+    }
+    let mut pkg = match FileTree::test_file("c12.roto", &src, 0).compile(&rt) {
+        Ok(p) => p,
+        Err(e) => {
+            rep.mismatch("generator produced a script that does not compile", json!({"case": input, "source": src, "error": format!("{e}")}));
+            return;
+        }
+    };
+    let f: TypedFunc<roto::Ctx<Cx>, fn(u32) -> RotoString> = match pkg.get_function("main") {
+        Ok(f) => f,
+        Err(e) => {
+            rep.mismatch("context script: main not retrievable", json!({"case": input, "source": src, "error": format!("{e:?}")}));
+            return;
+        }
+    };
+    let args: Vec<u32> = vec![0, 1, 19, 20, u32::MAX, p.next() as u32];
+    let n_threads = 3 + p.below(4) as usize;
+    let ctxs: Vec<Cx> = (0..n_threads)
+        .map(|i| Cx { name: RotoString::new(format!("t{i}-{}", word(&mut p))), n: p.below(1000) as u32 })
+        .collect();
+    let expected: Vec<Vec<String>> = ctxs
+        .iter()
+        .map(|c| {
+            let mut c = c.clone();
+            args.iter().map(|&a| f.call(&mut c, a).to_string()).collect()
+        })
+        .collect();
+    let calls = t.calls / 2;
+    let barrier = Barrier::new(n_threads + 1);
+    let bad: Mutex<Vec<Value>> = Mutex::new(vec![]);
+    std::thread::scope(|s| {
+        for tid in 0..n_threads {
+            let (f, args, expected, barrier, bad) = (&f, &args, &expected, &barrier, &bad);
+            let mut cx = ctxs[tid].clone();
+            s.spawn(move || {
+                barrier.wait();
+                for m in 0..calls {
+                    let k = (m as usize + tid) % args.len();
+                    let got = f.call(&mut cx, args[k]).to_string();
+                    if got != expected[tid][k] {
+                        let mut b = bad.lock().unwrap();
+                        if b.len() < 5 {
+                            b.push(json!({"thread": tid, "call": m, "arg": args[k], "got": got, "single_threaded": expected[tid][k]}));
+                        }
+                    }
+                }
+            });
+        }
+        barrier.wait();
+        drop(pkg);
+        drop(rt);
+    });
+    let total = calls * n_threads as u64;
+    rep.evaluations += total;
+    rep.hist("threads", n_threads.to_string());
+    *rep.histograms.entry("concurrent".into()).or_default().entry("calls".into()).or_insert(0) += total;
+    let bad = bad.into_inner().unwrap();
+    if !bad.is_empty() {
+        rep.violation(
+            "a concurrent call returned something else than the same call single-threaded",
+            "concurrent-result-differs:context",
+            json!({"case": input, "source": src, "mismatches": bad}),
+        );
+    }
+    rep.class(format!("context helper={with_helper} t={n_threads}"));
+    rep.sample(json!({"case": input, "family": "context", "source": src, "threads": n_threads, "calls_per_thread": calls}));
+}
+
 fn stress_case(seed: u64, index: u64, tiername: &str, drv: &mut Driver, rep: &mut Report) {
+    if index % 8 == 5 {
+        return ctx_case(seed, index, tiername, drv, rep);
+    }
     let t = tier(tiername);
     let mut p = Prng::for_case(seed, index);
     let script = gen_script(&mut p);
@@ -417,7 +530,7 @@ fn stress_case(seed: u64, index: u64, tiername: &str, drv: &mut Driver, rep: &mu
     let rt = make_runtime(ticks.clone());
 
     // verified checker on the real LIR
-    if !check_lir(drv, rep, &script.src, &rt, &input) {
+    if !check_lir!(drv, rep, &script.src, &rt, &input) {
         return;
     }
 
@@ -437,7 +550,7 @@ fn stress_case(seed: u64, index: u64, tiername: &str, drv: &mut Driver, rep: &mu
         if sc.family == "tick" {
             continue;
         }
-        check_lir(drv, rep, &sc.src, &rt, &input);
+        check_lir!(drv, rep, &sc.src, &rt, &input);
         side.push(sc);
     }
 
